@@ -244,8 +244,9 @@ def space_of(eng, st, task: V, p: V):
     el = st.seq_elems(p)
     i = z3.Int(eng.ctx.fresh_name("sp"))
     dim = st.read_field(task, "space_dimension").z
-    return z3.And(n == dim, qforall([i], z3.Implies(z3.And(i >= 0, i < n), dom(flat_var(task.z, i), el[i])),
-                                      patterns=[el[i]]))
+    return z3.And(n == dim, qforall([i], z3.Implies(z3.And(i >= 0, i < n),
+                                                    z3.And(dom(flat_var(task.z, i), el[i]), z3.Not(isnanv(el[i])))),
+                                    patterns=[el[i]]))
 
 
 def sf_Space(eng, st, args, kw, node):
@@ -317,15 +318,31 @@ def sf_scalar_case(eng, st, args, kw, node):
     return _b(z3.BoolVal(eng.case_env.get("__obj__", "scalar") == "scalar"))
 
 
+def isnanv(val_z):
+    return _uf("isnanv", z3.IntSort(), z3.BoolSort())(val_z)
+
+
+def sf_isnanv(eng, st, args, kw, node):
+    return _b(isnanv(args[0].z))
+
+
 def sf_nanfree(eng, st, args, kw, node):
-    """no continuous coordinate of the candidate is NaN (abstract predicate on the candidate's elements)"""
+    """no coordinate of the candidate (among the first dim) is NaN"""
     task, p = args
     el = st.seq_elems(p)
-    return _b(_uf("nanfree", z3.IntSort(), el.sort(), z3.IntSort(), z3.BoolSort())(task.z, el, st.seq_len(p)))
+    i = z3.Int(eng.ctx.fresh_name("nf"))
+    dim = st.read_field(task, "space_dimension").z
+    from .builtins import qforall
+    return _b(qforall([i], z3.Implies(z3.And(i >= 0, i < dim), z3.Not(isnanv(el[i]))), patterns=[el[i]]))
+
+
+def sf_Corr(eng, st, args, kw, node):
+    var, val = args
+    return V(("val",), _uf("Corr", z3.IntSort(), z3.IntSort(), z3.IntSort())(var.z, val.z))
 
 
 BuiltinMixin.SPEC_FUNCS.update({"is_scalar_objective": sf_is_scalar_objective, "scalar_case": sf_scalar_case,
-                                "nanfree": sf_nanfree})
+                                "nanfree": sf_nanfree, "isnanv": sf_isnanv, "Corr": sf_Corr})
 
 
 def sf_has_key(eng, st, args, kw, node):
@@ -455,3 +472,23 @@ def sf_out(eng, st, args, kw, node):
 
 
 BuiltinMixin.SPEC_FUNCS.update({"out": sf_out})
+
+
+def sf_clipf(eng, st, args, kw, node):
+    """mathematical clip: min(max(x, lo), hi) (NaN propagates in fp mode)"""
+    x, lo, hi = [st.to_float(a).z for a in args]
+    if eng.ctx.float_mode == "fp":
+        m = z3.If(z3.fpLT(x, lo), lo, x)
+        return V(("float",), z3.If(z3.fpIsNaN(x), x, z3.If(z3.fpGT(m, hi), hi, m)))
+    m = z3.If(x < lo, lo, x)
+    return V(("float",), z3.If(m > hi, hi, m))
+
+
+def sf_finite(eng, st, args, kw, node):
+    v = st.to_float(args[0]).z
+    if eng.ctx.float_mode == "fp":
+        return _b(z3.Not(z3.Or(z3.fpIsNaN(v), z3.fpIsInf(v))))
+    return _b(z3.BoolVal(True))
+
+
+BuiltinMixin.SPEC_FUNCS.update({"clipf": sf_clipf, "finite": sf_finite})
